@@ -47,14 +47,15 @@ func Bump() { atomic.AddInt64(&Activity, 1) }
 
 var waitStates = []string{
 	"chan receive", "chan send", "select", "sync.Cond.Wait", "sync.Mutex.Lock",
-	"sync.RWMutex.RLock", "sync.RWMutex.Lock", "semacquire", "sync.WaitGroup.Wait",
+	"sync.RWMutex.RLock", "sync.RWMutex.Lock", "sync.WaitGroup.Wait",
 	"finalizer wait", "GC worker (idle)", "GC sweep wait", "GC scavenge wait",
 	"force gc (idle)", "cleanup wait",
 }
 
 // Waiting reports whether a goroutine state is a blocked state that only another
 // goroutine's action can end. States the runtime ends by itself ("GC assist
-// wait", "sleep", "runnable", "syscall", "IO wait") are deliberately not listed.
+// wait", "sleep", "runnable", "syscall", "IO wait", runtime-internal "semacquire")
+// are deliberately not listed.
 func Waiting(state string) bool {
 	for _, w := range waitStates {
 		if strings.HasPrefix(state, w) {
@@ -62,6 +63,17 @@ func Waiting(state string) bool {
 		}
 	}
 	return false
+}
+
+// waiting is Waiting with the stack in hand. A plain "semacquire" is a blocked state only when the
+// semaphore belongs to the sync package; the runtime's own semaphores (a goroutine starting a GC cycle
+// or waiting for the world to restart while this very sampler holds it stopped) are released by the
+// runtime itself, so such a goroutine is about to run.
+func (g G) waiting() bool {
+	if strings.HasPrefix(g.State, "semacquire") {
+		return g.Has("sync.runtime_Semacquire") || g.Has("sync.(*")
+	}
+	return Waiting(g.State)
 }
 
 // Snapshot returns all goroutines of the process (including the caller, whose
@@ -196,7 +208,7 @@ func QuiesceOr(ch <-chan struct{}, maxWait time.Duration) (string, []G) {
 			if g.ID == self || others[g.ID] {
 				continue
 			}
-			if !Waiting(g.State) {
+			if !g.waiting() {
 				ex := false
 				for _, f := range exempt {
 					if g.Has(f) {
